@@ -92,7 +92,16 @@ def _is_aborted_atom(fn, atom, depth=0):
     return None
 
 
-def aborted_completion_rule(run, cls, closer, acts, skip=()):
+def _is_stale_atom(fn, atom, flag):
+    """truth value of a guard atom in the state "the accept for the next client is outstanding" (flag set; the completion
+    itself succeeded or failed with something else than operation_aborted - unknown)"""
+    t = q.render(fn, q.strip_casts(atom)).replace('this->', '')
+    if t == flag:
+        return True
+    return None
+
+
+def aborted_completion_rule(run, cls, closer, acts, skip=(), stale_flag=None):
     """close_connection() closes both sockets AND re-arms the accept, which can attach a connection that was waiting in the
     listen queue at once.  The completions it has just aborted are delivered afterwards - to the next client's session.
     So no completion bound on the session sockets may act (close again, write an error reply, touch the origin connection)
@@ -120,6 +129,14 @@ def aborted_completion_rule(run, cls, closer, acts, skip=()):
             run.ok('R5', 'aborted-completion-inert', g.norm, g.loc(), 'calls none of %s' % sorted(a.split('::')[-1] for a in acts))
             continue
         bad = [c for c in calls if q.reachable_under(g, None, [c], lambda atom, g=g: _is_aborted_atom(g, atom))]
+        if stale_flag and not bad:
+            # ... nor when it completed with anything else while the accept for the next client is already outstanding: a
+            # completion that was queued before close_connection() ran carries its own outcome (end-of-file, not_connected, even
+            # success), not operation_aborted
+            bad2 = [c for c in calls if q.reachable_under(g, None, [c], lambda atom, g=g: _is_stale_atom(g, atom, stale_flag))]
+            run.check(not bad2, 'R5', 'stale-completion-inert', g.norm, g.loc(bad2[0]) if bad2 else g.loc(),
+                      '%s reaches %s while %s is set: two completions of one client can be queued together (the peer\'s close completes the blocked write with not_connected AND the pending read with end-of-file); the first closes the connection and re-arms the accept, which attaches a waiting client at once - the second then closes THAT client unserved'
+                      % (g.norm.split('::')[-1], (q.callee_name(bad2[0]) or '').split('::')[-1] if bad2 else '', stale_flag), 'no action is reachable while %s is set' % stale_flag)
         run.check(not bad, 'R5', 'aborted-completion-inert', g.norm, g.loc(bad[0]) if bad else g.loc(),
                   '%s reaches %s when it is delivered operation_aborted: the operation was aborted by close_connection(), which has already re-armed the accept and may have attached the next client from the listen queue - that client is closed (or is written a stale error reply) by a completion of its predecessor and gets EOF without an answer'
                   % (g.norm.split('::')[-1], (q.callee_name(bad[0]) or '').split('::')[-1] if bad else ''), 'no action is reachable under ec == operation_aborted')
@@ -265,7 +282,25 @@ def check(run):
     run.clause('each request goes to the host and port it names: one client connection has one origin connection, and a request naming another origin is never appended to its pipeline')
     named_origin_rule(run, fr, list(mm))
     run.clause('a completion aborted by close_connection() does nothing: close_connection() has re-armed the accept and the next client may own the sockets already')
-    nab = aborted_completion_rule(run, H, H + '::close_connection', {H + '::close_connection', H + '::error', H + '::write_server_send_buffer', H + '::open_forward_connection'}, skip=('on_accept',))
+    stale_flag = None
+    oa = f('on_accept')
+    clr_ = {a.field.split('::')[-1] for a in q.field_accesses(oa) if a.kind == 'assign' and a.field.startswith(H + '::') and is_node(a.site) and a.site['k'] == 'bin' and q.strip_casts(a.site['rhs']).get('v') is False and not q.guards_at(oa, a.site)}
+    for fld in sorted(clr_):
+        sets_ok = True
+        nacc = 0
+        for g_ in fx.repo_functions():
+            if q.top_function(fx, g_).cls != H:
+                continue
+            for c in g_.calls():
+                if (q.callee_name(c) or '').endswith('acceptor::async_accept'):
+                    nacc += 1
+                    st_ = [a.site for a in q.field_accesses(g_, {H + '::' + fld}) if a.kind == 'assign' and q.strip_casts(a.site['rhs']).get('v') is True]
+                    sets_ok = sets_ok and bool(st_) and q.any_precedes(g_, st_, c)
+        if nacc and sets_ok:
+            stale_flag = fld
+    run.check(stale_flag is not None, 'R5', 'stale-completion-inert', H + ': accept-outstanding flag', oa.loc(),
+              'no bool member is raised before every async_accept and lowered first thing in on_accept(): the completions of a closed connection cannot tell that the sockets already belong to the next accept', 'flag %s' % stale_flag)
+    nab = aborted_completion_rule(run, H, H + '::close_connection', {H + '::close_connection', H + '::error', H + '::write_server_send_buffer', H + '::open_forward_connection'}, skip=('on_accept',), stale_flag=stale_flag)
     if nab < 6:
         run.broke('only %d completions bound by http_proxy found (on_read_request, on_domain_lookup, on_connected, on_server_write, on_server_receive, on_server_forward, on_error_sent)' % nab)
     run.clause('a request that fits the buffer is served: the "request too large" refusal is decided only after every complete request has been taken out of the buffer (a request of exactly the buffer size is complete, not too large)')
@@ -378,7 +413,7 @@ def check(run):
         g_ = gs[0]
         run.touch(g_)
         ccs = [c for c in g_.calls() if c.get('usr') == cc.usr]
-        return bool(ccs) and not q.exit_reachable_under(g_, None, ccs, lambda atom: (False if _is_aborted_atom(g_, atom) is True and 'operation_aborted' in q.render(g_, atom) else None))
+        return bool(ccs) and not q.exit_reachable_under(g_, None, ccs, lambda atom: (False if (_is_aborted_atom(g_, atom) is True and 'operation_aborted' in q.render(g_, atom)) or q.render(g_, q.strip_casts(atom)).replace('this->', '') == 'm_accepting' else None))
     run.check(len(w) == 1 and any(_closes(u) for u in bound_fn(er, w[0])) and 'm_client_connection' in q.render(er, w[0]), 'R4', 'error-then-close', H + '::error', er.loc(), 'the error response is not written to the client with close_connection as its completion', 'written to the client, then the connection is closed')
 
     run.clause('(5) the host/port separator of the absolute URI is searched from the END of the authority (a forward search for \':\' stops inside a bracketed IPv6 literal)')
@@ -452,6 +487,15 @@ def check(run):
         fn = f(name)
         run.touch(fn)
         ecs = [c for c in fn.calls() if c.get('usr') == cc.usr and any(q.render(fn, a) == 'ec' and p for a, p in q.guards_at(fn, c))]
+        if name == 'on_server_write':
+            # a failed write to the ORIGIN does not end the session: what the origin has already sent is still being relayed
+            # (an origin that answers once and closes, a request pipelined after its end-of-file); the queued requests are
+            # dropped and the read side closes the connection when the relay is done
+            drops = [a.site for a in q.field_accesses(fn, {H + '::m_num_server_out_bytes'}) if a.kind == 'assign' and q.int_value(a.site['rhs']) == 0 and any(q.render(fn, a_) == 'ec' and p_ for a_, p_ in q.guards_at(fn, a.site))]
+            run.check(bool(drops) and not ecs, 'R4', 'origin-write-error-keeps-relay', H + '::on_server_write', fn.loc(ecs[0]) if ecs else fn.loc(),
+                      'an error writing to the origin closes the client connection: when the origin has hung up after its answer and another pipelined request arrives while that answer is still being relayed, the relay is cut and the client gets a truncated response' if ecs else 'an error writing to the origin neither closes nor drops the queued requests',
+                      'the error edge drops the queued requests (m_num_server_out_bytes = 0) and leaves the relay alone')
+            continue
         run.check(bool(ecs), 'R4', 'error-closes', H + '::' + name, fn.loc(), 'an I/O error in %s does not lead to close_connection()' % name, 'error edge reaches close_connection()')
     import p16
     st = f('stop')
